@@ -7,6 +7,12 @@ Streams
             variant writes the grammar, updates some weights IN PLACE and writes it again (the second
             document must round-trip to the updated weights),
             judged by Model.JsonCheck.c14_fgg_check (oracle hrg_iso_b + exact comparison with the model).
+            The model's view of the original grammar takes its rules from the add_rule calls the harness made
+            (b.ref), not from g._rules.  Extra cases with REPEATED rules (add_dups): the same rule object
+            added twice, r.copy(), a rebuilt equal rule (same explicit ids, new objects), a near copy (one id
+            renamed), an isomorphic copy; and documents in which a rule is listed 2-3 times verbatim
+            (rule count, verbatim second round trip, sum-product invariant under renaming the copy's ids;
+            with all ids explicit also judged by c14_fgg_check against a reference read off the document).
   weights : patterned weight specifications (physical/expand/vaxes/default) fed to json_to_weights,
             judged against the denotational reading spec_denote (c14_weights_check); PatternedTensors
             built with fggs.indices written out with weights_to_json (c14_wtojson_check).
@@ -95,6 +101,8 @@ ASSUMPTIONS = [
     "weights_to_json is modelled by its result (the dense nested list of the PatternedTensor's denotation), not through PatternedTensor.__iter__/dim_to_dense (that machinery belongs to C06); it is compared with the implementation on every pattern kind",
     "finite float weights are passed as exact rationals (Fraction(float)); NaN is not generated",
     "PatternedTensor.__post_init__'s squeezing of size-1 physical axes is not modelled (it does not change the denotation); the harness reads physical/paxes/vaxes/default off the live object after it",
+    "the original grammar handed to the model has the rules the harness passed to HRG.add_rule, in call order per left-hand side (an HRG is a list of rules per lhs; repeated rules count twice); for documents with a repeated rule the reference grammar is read off the document by the harness (Graph/Node/Edge only) and c14_fgg_check verifies that the model writes exactly that document for it",
+    "documents with a repeated rule: the rule count and the invariance of sum_product under renaming the ids of the copy are compared in Python (metamorphic smoke test, tolerance 1e-6 relative); the Coq-judged part is the isomorphism / second-round-trip verdict",
     "sum_product before/after the round trip is compared in Python (|a-b| <= 1e-9, inf exactly): an end-to-end smoke test on top of the dense-weights comparison, not a verified oracle",
 ]
 
@@ -1162,7 +1170,7 @@ def run(tier, seed):
 
     cov = dict(timings=timings, evaluations=len(vals) + len(wvals) + len(pvals) + len(mvals) + sp_done + dd_done,
                distinct_nontrivial=distinct_g + distinct_w + distinct_p,
-               rule="grammar stream: gen.random_spec grammars (pruned of unused labels with prob. 0.9 for FGGs / 0.5 for HRGs) built with explicit/implicit/mixed ids, finite(str/int)/range domains, constant/dense/patterned factors; non-trivial = >= 2 rules, distinct by the JSON written. weights stream: random patterned specifications; non-trivial = uses a sum, product, shared or expand axis, distinct by JSON. PatternedTensor stream: non-trivial = some non-dense axis kind. Malformed and sum-product cases are counted in evaluations only.",
+               rule="grammar stream: gen.random_spec grammars (pruned of unused labels with prob. 0.9 for FGGs / 0.5 for HRGs) built with explicit/implicit/mixed ids, finite(str/int)/range domains, constant/dense/patterned factors; non-trivial = >= 2 rules, distinct by the JSON written; the model's original grammar = the add_rule calls made; plus cases with repeated rules (same object / copy() / rebuilt equal / near / iso copy, adjacent or last) and documents with a rule listed 2-3 times (all-explicit ones also through c14_fgg_check). weights stream: random patterned specifications; non-trivial = uses a sum, product, shared or expand axis, distinct by JSON. PatternedTensor stream: non-trivial = some non-dense axis kind. Malformed and sum-product cases are counted in evaluations only.",
                samples=samples, histograms=hist, kernel_reevaluated=nk + nk2 + nk3 + nk4,
                second_roundtrip_byte_compared=byte_checked, sum_product_compared=sp_done,
                repeated_rule_documents=dd_done, repeated_rule_documents_exact_duplicate=dd_exact, sum_product_pattern_sensitive=len(sp_sensitive),
@@ -1233,7 +1241,7 @@ def replay(path):
 
 MANIFEST = dict(
     level="proof",
-    text="Coq theorems about a Gallina model that follows fggs/formats.py statement by statement (as repaired by 2f3a5c1, fe13a06, 450bcaa, 38f8bd3): json_to_hrg(hrg_to_json g) is isomorphic to g for every well-formed g and every str() of the implicit ids (C14_roundtrip_iso); at the FGG level, through FGG.from_hrg, with equal domains and factors equal as dense tensors (C14_fgg_roundtrip, for every well-formed FGG: unused labels and empty dimensions included); with explicit ids the second round trip reproduces the JSON (C14_second_roundtrip, _verbatim); every attachment/external node number outside 0..n-1, negative ones included, is rejected with ValueError (C14_out_of_range_rejected, C14_out_of_range_is_ValueError); the strided to_dense of json_to_weights' result is the tensor the patterned specification denotes, with or without a 'vaxes' entry (C14_patterned_weights). The model is tied to /repo on every run by comparing JSON, grammars, dense weights and exception kinds exactly, and every implementation output is judged by the extracted oracles hrg_iso_b / spec_dense / has_oor (hrg_iso_b sound by C14_iso_oracle_sound; spec_dense is the definition C14_patterned_weights equates the model with).",
+    text="Coq theorems about a Gallina model that follows fggs/formats.py statement by statement (as repaired by 2f3a5c1, fe13a06, 450bcaa, 38f8bd3): json_to_hrg(hrg_to_json g) is isomorphic to g for every well-formed g and every str() of the implicit ids (C14_roundtrip_iso); at the FGG level, through FGG.from_hrg, with equal domains and factors equal as dense tensors (C14_fgg_roundtrip, for every well-formed FGG: unused labels and empty dimensions included); with explicit ids the second round trip reproduces the JSON (C14_second_roundtrip, _verbatim); the round trip keeps the number of rules of every left-hand side, repeated (equal) rules included, and the oracle rejects any result with another rule count whatever witness it is given (C14_roundtrip_rule_counts, C14_iso_oracle_rejects_count_mismatch, C14_check_rejects_dropped_rule); every attachment/external node number outside 0..n-1, negative ones included, is rejected with ValueError (C14_out_of_range_rejected, C14_out_of_range_is_ValueError); the strided to_dense of json_to_weights' result is the tensor the patterned specification denotes, with or without a 'vaxes' entry (C14_patterned_weights). The model is tied to /repo on every run by comparing JSON, grammars, dense weights and exception kinds exactly, and every implementation output is judged by the extracted oracles hrg_iso_b / spec_dense / has_oor (hrg_iso_b sound by C14_iso_oracle_sound; spec_dense is the definition C14_patterned_weights equates the model with).",
     note="Trusted: Coq kernel + vm_compute, extraction (ExtrOcamlBasic) cross-checked against vm_compute on a sample and on the non-zero verdicts, the Python harness mapping live fggs objects to model values. weights_to_json is modelled by its dense result; json.dumps/loads run but are not modelled. Defects F10, F19, F20 and F21 found by this check were repaired in /repo (known_findings.json: fixed; no known finding is left for C14); the behaviour before the repair of F21 is kept as *_old definitions with its refutation.",
     technique="Coq proof (model + theorems) + model/implementation correspondence with verified oracles",
     design_ref="DESIGN.md section 6, C14")
